@@ -63,6 +63,41 @@ CLAIMED = {
         "note": "trusted: external crates do not panic; no time bounds are decided",
         "technique": _T + "panic-site enumeration over the call-graph closure with guard-checked allow-list + allocation-size provenance",
     },
+    "C01": {
+        "text": "Decides for all inputs and flag subsets: parse_opcode accepts exactly the 35 table codes plus 2-byte codes with a "
+                "non-zero first byte; for each opcode the complete normalised accepting-path set of parse_args (sanitiser, argument "
+                "position, literal size, strict terminator rule, overflow class -> outcome, produced variant and field sources) "
+                "equals the set generated from its row of spec/conditions.json; the sanitiser atoms have exactly their specified "
+                "accepting paths; for 28 Condition variants the per-path (guards, effects, exit) of the parse_conditions arm equals the "
+                "effect table (fold operator, impossibility guard operands/operator, deferred-set inserts, countdown, message "
+                "direction); validate_conditions has each rejection guard, examines every deferred set and is_ephemeral matches parent "
+                "id and (puzzle hash, amount); every entry point passes validate_conditions/validate_signature on each Ok path; "
+                "strict list termination on all three list walkers; mempool-visitor flag table. Not the numeric end-to-end behaviour.",
+        "design_ref": "DESIGN.md 3/C01",
+        "note": "trusted: clvmr allocator primitives, SHA-256, HashSet/HashMap; the spec rows are reviewed against README/docs",
+        "technique": _T + "accepting-path normal form by bounded path enumeration with a symbolic environment, set-compared with hand-written spec tables; must-pass-through",
+    },
+    "C11": {
+        "text": "Decides: each of the three hand-written u64 ladders (Coin::coin_id, u64_to_bytes, clvm_bytes_len) is extracted as a "
+                "decision table (guards = comparisons of the amount with literals, outcome = emitted length from the Sha256/Vec "
+                "operands, which must be suffixes of to_be_bytes(amount) plus a literal 0x00) and evaluated at every literal +-1 and all "
+                "byte-length boundaries against the canonical minimal length; the three tables agree; sanitize_uint returns a value "
+                "only when the length fits (never truncates), classifies top-bit/oversized as overflow; the 12 clvm-traits integer "
+                "impls pass their own signedness/width; pad bytes by sign. Equality with clvmr's encoder is trusted.",
+        "design_ref": "DESIGN.md 3/C11",
+        "note": "trusted: clvmr new_number/u64_from_bytes, to_be_bytes",
+        "technique": _T + "decision-table extraction and evaluation on the literal-induced partition; sibling agreement",
+    },
+    "C17": {
+        "text": "Decides: all 24 PRECOMPUTED_HASHES equal sha256(0x01||minimal(i)) (hashlib), indexed only under val<len; "
+                "tree_hash_atom/pair feed [1]||bytes and [2]||first||rest; both traversals push Cons,left,right and hash "
+                "(first popped, second popped); TreeCache::insert is called only by tree_hash_cached with the pair hash computed in "
+                "the same operation; get/insert respect the three top-u32 sentinels; no TreeCache holder restores an allocator "
+                "checkpoint; curry helpers use q=1,a=2,c=4,nil in the right roles. Not the induction over DAGs/visit histories.",
+        "design_ref": "DESIGN.md 3/C17",
+        "note": "trusted: SHA-256, clvmr node accessors",
+        "technique": _T + "constant recomputation + sibling agreement + who-may-call + provenance",
+    },
 }
 
 _PENDING = "check not built yet in this round (planned, see DESIGN.md section 3); not claimed until its rules run"
